@@ -10,3 +10,4 @@ CONSTANTS
   Resizes <- CursorResizes
   MaxDepth = 2
   Emit = TRUE
+  CheckDump = FALSE
